@@ -128,8 +128,7 @@ func (k *KittyImage) CellSize() (w int, h int) {
 // separate goroutine. A [Redraw] event will be posted when complete
 func (k *KittyImage) Resize(w int, h int) {
 	// Resize the image
-	cellPixW := k.vx.winSize.XPixel / k.vx.winSize.Cols
-	cellPixH := k.vx.winSize.YPixel / k.vx.winSize.Rows
+	cellPixW, cellPixH := k.vx.cellPixelSize()
 	img := resizeImage(k.img, w, h, cellPixW, cellPixH)
 
 	// Reupload the image
@@ -244,8 +243,7 @@ func (s *Sixel) Resize(w int, h int) {
 	go func() {
 		defer atomicStore(&s.encoding, false)
 		// Resize the image
-		cellPixW := s.vx.winSize.XPixel / s.vx.winSize.Cols
-		cellPixH := s.vx.winSize.YPixel / s.vx.winSize.Rows
+		cellPixW, cellPixH := s.vx.cellPixelSize()
 		img := resizeImage(s.img, w, h, cellPixW, cellPixH)
 		max := img.Bounds().Max
 		s.w = max.X / cellPixW
@@ -325,6 +323,20 @@ func samePlacement(p1, p2 *placement) bool {
 		return false
 	}
 	return true
+}
+
+// cellPixelSize returns the size of one cell in pixels. A terminal can report
+// no pixel size, or fewer pixels than cells; the size is never less than 1x1
+// so that it can be divided by
+func (vx *Vaxis) cellPixelSize() (int, int) {
+	w, h := 1, 1
+	if vx.winSize.Cols > 0 && vx.winSize.XPixel/vx.winSize.Cols > 0 {
+		w = vx.winSize.XPixel / vx.winSize.Cols
+	}
+	if vx.winSize.Rows > 0 && vx.winSize.YPixel/vx.winSize.Rows > 0 {
+		h = vx.winSize.YPixel / vx.winSize.Rows
+	}
+	return w, h
 }
 
 // Resizes an image to fit within the provided rectangle (as cells). If the
